@@ -22,7 +22,11 @@ STOPS = "\n!#$%&*+-:<=>@[\\]^_`{}~"
 COLLIDERS = ["".join(chr(0x100 + ord(c)) for c in STOPS), "".join(chr(0x4E00 + ord(c)) for c in STOPS), "".join(chr(0x2000 + ord(c)) for c in STOPS),
              "".join(chr(0x10000 + ord(c)) for c in STOPS)]
 BIG = ["[" + "a b " * 600 + "](u)", "[" + "*a* `b` " * 300 + "]", "`" * 3 + " x" * 2000, "> " * 50 + "a", "[x]: /u\n\n" + "[x] " * 700,
-       "*a " * 700, "[" * 90 + "a" + "]" * 90, "&amp;" * 600 + "\\*" * 600]
+       "*a " * 700, "[" * 90 + "a" + "]" * 90, "&amp;" * 600 + "\\*" * 600,
+       # very long multi-word labels next to a definition (seed C07-8: a label-length bail-out leaving a scratch buffer dirty)
+       "[q]: /u\n\n[" + "a b " * 300 + "]", "[q]: /u\n\n[t][" + "a  b\t" * 250 + "]", "[" + "w " * 600 + "]: /long\n\n[q]: /u\n\n[q][" + "x y " * 260 + "]",
+       "[q]: /u\n\n![" + "i  j " * 210 + "][]"]
+PROBE_DEF = "[foo]: /leak2 'T'\n[Bar  baz]: /b\n\n[foo] [Foo][] [t][foo] ![bar baz] [r]"
 PROBE = "*a* _b_ `c` [d](e) ![f](g) <http://h.i> &amp; \\* ~~j~~ [x] [r]\n\n- k\n\n> l\n\n# m !n #o $p %q +r -s :t =u >v @w ^x {y}z"
 
 
@@ -39,7 +43,7 @@ def cases(rng, tier, Case):
                 res.append(Case("hist 100 TR %s" % script, "history", {"cfg": cfg, "nest": 100, "docs": [hx(d) for d in docs]}))
     for first in COLLIDERS + BIG:
         for cfg in ("CsW", "CsW34", "nebmliatp"):
-            docs = [first, PROBE, first + "\n\n" + PROBE, PROBE]
+            docs = [first, PROBE, first + "\n\n" + PROBE, PROBE, first, PROBE_DEF, first, "[foo]: /leak2 'T'\n\n[foo]"]
             script = "+%s;" % cfg + ";".join("P" + hx(d) for d in docs)
             res.append(Case("hist 100 TR %s" % script, "history", {"cfg": cfg, "nest": 100, "docs": [hx(d) for d in docs]},
                             compare=first in COLLIDERS))
@@ -75,11 +79,17 @@ def followup(case, io, Case):
     if case.tag != "history":
         return []
     p = case.params
-    return [Case("parse %s %d TR %s" % (p["cfg"], p["nest"], d), "fresh", {"parent": case.line, "k": i, "cfg": p["cfg"]}, compare=case.compare)
-            for i, d in enumerate(p["docs"])]
+    out = []
+    for i, d in enumerate(p["docs"]):
+        # the fresh parsers run in another process; a small neutral document goes before each of them so that state kept
+        # outside the parser object (statics, thread-locals) is not the same as in the history (seed C07-8)
+        out.append(Case("parse C 100 TR %s" % NEUTRAL, "neutral", {"neutral": 1}))
+        out.append(Case("parse %s %d TR %s" % (p["cfg"], p["nest"], d), "fresh", {"parent": case.line, "k": i, "cfg": p["cfg"]}, compare=case.compare))
+    return out
 
 
 _hist = {}
+NEUTRAL = hx("[n]: /n 'N'\n\n[n] `c` *e* [n][] <http://n.n>\n\n- i\n")
 
 
 def split_hist(io):
@@ -95,6 +105,8 @@ def split_hist(io):
 def oracle(case, io, mo):
     if not io.startswith("ok"):
         return "did not return normally: " + io[:120]
+    if case.tag == "neutral":
+        return None
     if case.tag in ("history", "reconf"):
         _hist[case.line] = split_hist(io)
         return None
